@@ -282,6 +282,10 @@ func c10ArithCase(cc *c10Compiler, c map[string]any) (vlib.M, error) {
 		}
 		if mode == "lit" {
 			run["res"] = c10Run(code, nil, nil)
+			// the literals are constants of the compiled code: a second run must see the same numbers
+			if again := c10Run(code, nil, nil); fmt.Sprint(again) != fmt.Sprint(run["res"]) {
+				run["mutated"] = fmt.Sprintf("second run of the same code: %v", again)
+			}
 			runs = append(runs, run)
 			continue
 		}
@@ -295,10 +299,15 @@ func c10ArithCase(cc *c10Compiler, c map[string]any) (vlib.M, error) {
 				return nil, err
 			}
 		}
+		a0, b0 := fmt.Sprint(c10Result(av)), fmt.Sprint(c10Result(bv))
 		if withVars {
 			run["res"] = c10Run(code, nil, []any{av, bv})
 		} else {
 			run["res"] = c10Run(code, []any{av, bv}, nil)
+		}
+		// exactness of every LATER use: the operands themselves must still be the numbers they were
+		if a1, b1 := fmt.Sprint(c10Result(av)), fmt.Sprint(c10Result(bv)); a1 != a0 || b1 != b0 {
+			run["mutated"] = fmt.Sprintf("operands after the operation: %s %s (before: %s %s)", a1, b1, a0, b0)
 		}
 		runs = append(runs, run)
 	}
